@@ -471,12 +471,12 @@ def is_empty(string, trim_spaces=True, chars=None):
     Returns true if the string with removed leading and trailing chars is
     empty.
 
-    :signature: string.isEmpty(trimSpaces => true, chars => null)
+    :signature: string.isEmpty(trim => true, chars => null)
     :receiverArg string: value to be checked for emptiness after trim
     :argType string: string
-    :arg trimSpaces: true by default, which means string to be trimmed with
+    :arg trim: true by default, which means string to be trimmed with
         chars. false means checking whether input string is empty
-    :argType trimSpaces: boolean
+    :argType trim: boolean
     :arg chars: symbols for trimming. null by default, which means trim is
         done with whitespace characters
     :argType chars: string
